@@ -33,7 +33,7 @@ def cases(tier, seed):
     yield dict(kind='roundtrip3x3')
     yield dict(kind='ids')
     dims = [('ninst', [1, 2]), ('nbeads', [1, 0, 2]), ('nsamples', [2, 1, 3]), ('units', ['mixed', 'all-mef', 'channel', 'none', 'all-rfi']),
-            ('cont', ['int', 'float']), ('plot', [False, True]), ('hist', [False, True]), ('outpath', ['default', 'explicit']),
+            ('cont', ['int', 'float']), ('plot', [False, True]), ('hist', [False, True]), ('outpath', ['default', 'explicit', 'relative']),
             ('nfl', [2, 3, 4, 11]), ('cluster', ['all', 'one']), ('wbname', ['experiment', 'cells', 'samples.x', 'xls', 'Tables 2020-01']),
             ('ids', ['text', 'numbers'])]
     if tier == 'quick':
@@ -47,7 +47,8 @@ def cases(tier, seed):
                 dict(ninst=1, nbeads=1, nsamples=2, units='mixed', cont='float', plot=False, hist=True, outpath='default', nfl=2, cluster='all', wbname='cells'),
                 dict(ninst=1, nbeads=0, nsamples=1, units='channel', cont='int', plot=False, hist=False, outpath='default', nfl=2, cluster='all', wbname='samples.x'),
                 dict(ninst=1, nbeads=0, nsamples=1, units='none', cont='int', plot=False, hist=True, outpath='default', nfl=2, cluster='all', wbname='xls'),
-                dict(ninst=2, nbeads=2, nsamples=2, units='mixed', cont='int', plot=True, hist=True, outpath='default', nfl=2, cluster='all', ids='numbers')]
+                dict(ninst=2, nbeads=2, nsamples=2, units='mixed', cont='int', plot=True, hist=True, outpath='default', nfl=2, cluster='all', ids='numbers'),
+                dict(ninst=1, nbeads=1, nsamples=3, units='mixed', cont='int', plot=True, hist=True, outpath='relative', nfl=2, cluster='all')]
     else:
         cfgs = list(explore.deviations(dims, 1)) + [c for c in explore.deviations(dims, 2) if c['_dev'] == 2 and c['plot'] and (c['nfl'] == 3 or c['hist'])]
     for cfg in cfgs:
@@ -180,7 +181,8 @@ def build(cfg, d):
     # row identifiers as a user may type them: text, or plain numbers (which Excel stores as numbers)
     ids = cfg.get('ids', 'text')
     bead_id = (lambda k: 'B%03d' % (k + 1)) if ids == 'text' else (lambda k: k + 1)
-    sample_id = (lambda k: 'S%04d' % (k + 1)) if ids == 'text' else (lambda k: 101 + k)
+    # text identifiers whose sheet order is not their lexicographic order (S9, S10, S11 ...)
+    sample_id = (lambda k: 'S%d' % (k + 9)) if ids == 'text' else (lambda k: 101 + k)
     if ids == 'numbers':
         for i, inst in enumerate(insts):
             inst['id'] = 7 + i
@@ -289,6 +291,27 @@ def check_output(res, sig, what, inp, outp, d, plot, hist, one, bead_ids_channel
         if len(h) != 2 * units_cells:
             res.violation(sig + ':histograms', '%s: Histograms sheet has %d rows for %d (sample, channel) pairs with units' % (what, len(h), units_cells), one)
             return False
+        # rows in the order of the Samples sheet, channels in the order of the Units columns, centres before counts
+        want_rows = []
+        for _, srow in out['Samples'].iterrows():
+            for c_ in scols:
+                if c_.endswith(' Units') and isinstance(srow[c_], str):
+                    want_rows += [(srow['ID'], c_[:-6], 'Bin Centers'), (srow['ID'], c_[:-6], 'Counts')]
+        hc = list(h.columns[:3])
+        got_rows, last = [], [None, None]
+        for _, hr in h.iterrows():
+            sid_, ch_ = hr[hc[0]], hr[hc[1]]
+            if sid_ != sid_ or sid_ is None:
+                sid_ = last[0]
+            if ch_ != ch_ or ch_ is None:
+                ch_ = last[1]
+            last = [sid_, ch_]
+            got_rows.append((sid_, ch_, str(hr[hc[2]]).split(' (')[0]))
+        if got_rows != want_rows:
+            k_ = next((i for i, (a_, b_) in enumerate(zip(got_rows, want_rows)) if a_ != b_), min(len(got_rows), len(want_rows)))
+            res.violation(sig + ':histogram-order', '%s: row %d of the Histograms sheet is %r, the Samples sheet order asks for %r' % (
+                what, k_, got_rows[k_] if k_ < len(got_rows) else None, want_rows[k_] if k_ < len(want_rows) else None), one)
+            return False
     if plot:
         base = os.path.dirname(inp)
         exp = []
@@ -323,6 +346,7 @@ def run_case(c):
     _N[0] += 1
     d = os.path.join(scratch(), 'c15_%d' % _N[0])
     os.makedirs(d, exist_ok=True)
+    cwd_at_start = os.getcwd()
     try:
         k = c['kind']
         if k == 'roundtrip2x2':
@@ -353,10 +377,19 @@ def run_case(c):
                 outp = os.path.join(d, 'results', 'out.xlsx') if cfg['outpath'] == 'explicit' else os.path.join(d, cfg.get('wbname', 'experiment') + '_output.xlsx')
                 if cfg['outpath'] == 'explicit':
                     os.makedirs(os.path.dirname(outp), exist_ok=True)
+                run_in, run_out, cwd0 = wb, (outp if cfg['outpath'] == 'explicit' else None), None
+                if cfg['outpath'] == 'relative':
+                    # both paths relative to the working directory, the workbook in a sub-directory of it, the output somewhere else
+                    cwd0 = os.getcwd()
+                    os.chdir(os.path.dirname(d))
+                    run_in = os.path.join(os.path.basename(d), os.path.basename(wb))
+                    run_out = os.path.join('out_of_' + os.path.basename(d), 'out.xlsx')
+                    os.makedirs(os.path.dirname(run_out), exist_ok=True)
+                    outp = os.path.abspath(run_out)
                 what = 'excel_ui.run(%s)' % ', '.join('%s=%r' % kv for kv in sorted(cfg.items()) if kv[0] != '_dev')
                 np.random.seed(3)
                 try:
-                    ui.run(input_path=wb, output_path=outp if cfg['outpath'] == 'explicit' else None, verbose=False, plot=cfg['plot'], hist_sheet=cfg['hist'])
+                    ui.run(input_path=run_in, output_path=run_out, verbose=False, plot=cfg['plot'], hist_sheet=cfg['hist'])
                 except Exception as e:
                     import traceback
                     tb = traceback.extract_tb(e.__traceback__)[-1]
@@ -378,7 +411,7 @@ def run_case(c):
                         os.remove(f_)
                     try:
                         np.random.seed(3)
-                        ui.run(input_path=wb, output_path=outp if cfg['outpath'] == 'explicit' else None, verbose=False, plot=cfg['plot'], hist_sheet=cfg['hist'])
+                        ui.run(input_path=run_in, output_path=run_out, verbose=False, plot=cfg['plot'], hist_sheet=cfg['hist'])
                     except Exception as e:
                         res.violation('rerun:raises:%s' % type(e).__name__, '%s raised %s: %s when the same workbook was analysed a second time' % (what, type(e).__name__, e), dict(c))
                         return res
@@ -411,5 +444,7 @@ def run_case(c):
                     res.ok('example', True)
             res.sample({'workbook': 'examples/experiment.xlsx', 'plots': True, 'hist_sheet': True})
     finally:
+        os.chdir(cwd_at_start)
         shutil.rmtree(d, ignore_errors=True)
+        shutil.rmtree(os.path.join(os.path.dirname(d), 'out_of_' + os.path.basename(d)), ignore_errors=True)
     return res
